@@ -141,9 +141,6 @@ class AsymmetricStepSolver(ScaledStepSolver):
         if self._deriv is None:
             self._deriv = self.compute_deriv(self.active_set)
 
-        if self.solver is None:
-            self.solver = self.linear_solver(self.deriv)
-
         params = self.params
 
         rhs = self.compute_rhs(b0, b1, b2t)
@@ -151,6 +148,9 @@ class AsymmetricStepSolver(ScaledStepSolver):
         initial_sol = self.initial_sol(b0, b1, b2t)
 
         try:
+            if self.solver is None:
+                self.solver = self.linear_solver(self.deriv)
+
             sol = self.solver.solve(rhs, initial_sol=initial_sol)
         except LinearSolverError as e:
             raise StepSolverError from e
